@@ -171,7 +171,17 @@ pub fn check(cx: &Cx, rep: &mut Report) {
                 // termination cause of the subscriber
                 // a fault counts from the moment the message that triggers it was submitted (it is queued in front
                 // of later deliveries, which are then never handled)
-                let fault_cause = ix.faults.iter().filter(|f| ix.ev[f.0 as usize].task == af.task).map(|f| ix.ops.iter().filter(|o| o.msg == f.2 && o.msg != 0).map(|o| o.b).min().unwrap_or(f.0).min(f.0)).min();
+                let fault_cause = ix
+                    .faults
+                    .iter()
+                    .filter(|f| ix.ev[f.0 as usize].task == af.task)
+                    .map(|f| {
+                        let by_op = ix.ops.iter().filter(|o| o.msg == f.2 && o.msg != 0).map(|o| o.b).min();
+                        // the triggering message may itself be a publication (also one made from a handler)
+                        let by_pub = pubs.iter().filter(|q| q.uid == f.2 && f.2 != 0).map(|q| q.b).min();
+                        [by_op, by_pub, Some(f.0)].into_iter().flatten().min().unwrap_or(f.0)
+                    })
+                    .min();
                 let cause = [af.first_term_cause(), fault_cause, af.task_end.map(|e| e.0)].into_iter().flatten().min();
                 let barrier = barriers.iter().any(|(t, b, r)| *t == p.topic && *b > pr && cause.map(|c| *r < c).unwrap_or(true));
                 // on L2 a missing delivery is only final once the subscriber has completed stopped()
@@ -181,7 +191,8 @@ pub fn check(cx: &Cx, rep: &mut Report) {
                     if mine.iter().filter(|s| s.sub).count() > 1 {
                         rep.premise("C09.R1.resubscribed_still_once");
                     }
-                    if n != 1 {
+                    // a subscriber that fails loses whatever is still in its mailbox: only a healthy one must have handled it
+                    if n > 1 || (n == 0 && !af.failed()) {
                         rep.fail(P, "R1", if n == 0 { "not_delivered" } else { "delivered_twice" }, format!("publication {} (topic {}, published #{pb}..#{pr} by {}) was delivered {n} times to subscriber tag {tag}, which was subscribed and alive past the fan-out", p.uid, p.topic, p.who), vec![pb, pr]);
                     }
                 } else {
